@@ -34,7 +34,7 @@ counters, exception classifier); it never imports OSACA - the parser object unde
 # ----------------------------------------------------------------------------------------------------------------------
 COMMENT_WORDS = [
     "c", "loop", "i+=1", "%rax", "$5", "x1,", "[sp]", "(a)", "#tag", "0x10", "foo:", ".L3", "==", "->", "1", "a.b",
-    "ne", "//", "{v0.2d}", "mov", "8(%rsp)", "!", "LLVM", "-O3", "<<", "~",
+    "ne", "//", "{v0.2d}", "mov", "8(%rsp)", "!", "LLVM", "-O3", "<<", "~", ";", "a;b", "done;",
 ]
 
 
@@ -669,6 +669,10 @@ def instr_item(r, isa, force_tail=None):
 
 
 def blank_line(r):
+    if r.random() < 0.12:
+        # white space that some line-splitting routines take for a line boundary (a page break ^L in a listing, ...): still one
+        # blank line of the file, which is counted by its newline characters
+        return {"kind": "blank", "text": r.choice(["\x0c", "\x0c", " \x0c", "\x0b", "\x1c", "\x1d\t", "\x1e", "\x85", "\u2028", "\u2029 "]), "exotic": True}
     return {"kind": "blank", "text": r.choice(["", "", "", " ", "\t", "   ", " \t ", "\t\t"])}
 
 
@@ -865,7 +869,7 @@ def count_item(isa, item, R, prefix=""):
         for o in item["ast"]["operands"]:
             R.observe("operand-tags", optag(isa, o))
     elif k == "blank":
-        R.count(prefix + ("line:blank-empty" if item["text"] == "" else "line:blank-whitespace"))
+        R.count(prefix + ("line:blank-empty" if item["text"] == "" else "line:blank-other-whitespace" if item.get("exotic") else "line:blank-whitespace"))
     else:
         R.count(prefix + "line:" + k + ("/" + item["sub"] if item.get("sub") else "") + ("/" + item["marker"] if k == "comment" else ""))
         if k != "comment" and item.get("comment") is not None:
